@@ -546,3 +546,66 @@ def gen_C09(rng, count, tier):
         head = head.replace(b"\r\n\r\n", b"\r\n")
         toks = ["cred:%s:%s" % (hx(a), hx(b2)) for a, b2 in table] + ["realm:" + hx(realm), "head:" + hx(head)]
         yield ("auth", " ".join(toks))
+
+
+# ------------------------------------------------------------------------------------ C14
+
+def gen_C14(rng, count, tier):
+    n = 0
+    maxlen = 5 if tier == "quick" else 8
+    # exhaustive: random-access source, every block size, every range, left to run
+    for ln in range(0, maxlen + 1):
+        src = bytes(range(65, 65 + ln))
+        for block in range(1, ln + 2):
+            ranges = [None] + [(f, t) for f in range(0, ln + 2) for t in list(range(-1, ln + 2))]
+            for r in ranges:
+                turns = ln // block + 3
+                toks = ["src:" + hx(src), "block:%d" % block] + (["range:%d:%d" % r] if r else []) + ["start"] + ["turn"] * turns
+                n += 1
+                yield ("copier", " ".join(toks))
+    # stop at every turn, with and without range
+    for ln in (0, 1, 4, 7):
+        src = bytes(range(97, 97 + ln))
+        for block in (1, 2, 3, 8):
+            total = ln // block + 3
+            for at in range(0, total + 1):
+                for r in (None, (1, 3)):
+                    toks = ["src:" + hx(src), "block:%d" % block] + (["range:%d:%d" % r] if r else []) + ["start"] + ["turn"] * at + ["stop"] + ["turn"] * 3
+                    n += 1
+                    yield ("copier", " ".join(toks))
+    while n < count:
+        n += 1
+        ln = pick(rng, [0, 1, 2, 3, 9, 17, 40]) if rng.random() < 0.95 else 200000
+        src = bytes((rng.randrange(256) if ln < 100 else j % 251) for j in range(ln))
+        block = pick(rng, [1, 2, 3, 7, 16, 64, 65536]) if ln < 100 else 65536
+        toks = ["src:" + hx(src), "block:%d" % block]
+        k = rng.randrange(10)
+        if k < 3:
+            # sequential source: arrivals in pieces, then eof
+            toks.append("seq")
+            evs = ["start"]
+            parts = cuts(rng, src)
+            if rng.random() < 0.5:
+                evs.append("turn")
+            for pce in parts:
+                evs.append("arrive:" + hx(pce))
+                if rng.random() < 0.3:
+                    evs.append("turn")
+            if rng.random() < 0.15:
+                evs.insert(rng.randrange(1, len(evs) + 1), "stop")
+            evs.append("eof")
+            if rng.random() < 0.2:
+                toks.append("fail:" + pick(rng, ["srcopen", "dstopen", "write:0", "write:1"]))
+            yield ("copier", " ".join(toks + evs))
+            continue
+        if k < 7:
+            f = rng.randrange(0, ln + 3)
+            t = pick(rng, [-1, rng.randrange(0, ln + 3), f, f + 1, ln - 1, ln])
+            toks.append("range:%d:%d" % (f, t))
+        if k == 7 or rng.random() < 0.15:
+            toks.append("fail:" + pick(rng, ["srcopen", "dstopen", "seek", "read:0", "read:1", "read:2", "write:0", "write:1", "write:3"]))
+        turns = ln // block + 3
+        evs = ["start"] + ["turn"] * turns
+        if rng.random() < 0.2:
+            evs.insert(rng.randrange(1, len(evs) + 1), "stop")
+        yield ("copier", " ".join(toks + evs))
